@@ -82,4 +82,6 @@ InitOnly == Init /\ [][FALSE]_vars
    size of the would-be output in units (evaluated in the initial states) *)
 ExportCfg == (us.pc = "idle" /\ us.i = 1 /\ clog = <<>> /\ wt.pc = "loop" /\ futs = <<>>)
              => PrintT(<<"CASE", ToJson([cfg |-> cfg, allowed |-> allowed, content |-> Content(cfg), total |-> Total(cfg)])>>)
+(* tightness of the A-layer (development aid and vacuity guard): every terminal state prints its log *)
+ExportTerminal == AllDone => PrintT(<<"CASE", ToJson([cfg |-> cfg, allowed |-> allowed, log |-> clog])>>)
 =============================================================================
